@@ -56,6 +56,8 @@ class Affine:
         return not self.t
 
     def __eq__(self, o):
+        if not isinstance(o, (Affine, int, Fraction)):
+            return False
         o = _aff(o)
         return self.c == o.c and self.t == o.t
 
